@@ -776,7 +776,7 @@ pub fn run_c18(cx: &Cx) -> PropResult {
     let mut r = PropResult::new(
         acc,
         "exploration",
-        "histories: sequences of 1-30 top-level calls drawn from a pool of 200 generated calls (encode / decode of built-in, derived, compiled, evolved and dedup-bearing values, multi-value streams, object graphs; including calls that fail: non-BMP chars, transient constructors, truncated / corrupted input, unknown string ids), each history executed in one thread of a fresh child process; oracle: every call's result (bytes, value or error, digested) equals the result of the same call executed alone as the only call of a fresh process. Values with hash containers are compared by what their bytes denote. Schedules: a child process starts 16 threads that perform their FIRST use (lazy metadata initialisation) of each of the 163 compiled declarations simultaneously behind a per-type barrier with seeded jitter; every thread's result for every type must equal the result of a single-threaded process. Non-trivial (histories) = at least 2 calls with a failing call before a succeeding one; every stress process counts as non-trivial.",
+        "histories: sequences of 1-30 top-level calls drawn from a pool of 200 generated calls (encode / decode of built-in, derived, compiled, evolved and dedup-bearing values, multi-value streams, object graphs; including calls that fail: non-BMP chars, transient constructors, truncated / corrupted input, unknown string ids), each history executed in one thread of a fresh child process; oracle: every call's result (bytes, value or error, digested) equals the result of the same call executed alone as the only call of a fresh process. Values with hash containers are compared by what their bytes denote. Schedules: a child process starts 16 threads that perform their FIRST use (lazy metadata initialisation) of each of the 163 compiled declarations simultaneously behind a per-type barrier with seeded jitter; every thread's result for every type must equal the result of a single-threaded process. Non-trivial (histories) = at least 2 calls with a failing call before a succeeding one; every stress process counts as non-trivial. The pool also holds decodes of hand-written declarations whose defaults have shared interior state (reported, then changed through the decoded value) and encodes of declarations every encode of which must fail (an evolution step naming a field that is neither written nor removed); call digests carry the whole error text.",
     );
     r.assumptions = vec![
         "the harness does not own the scheduler: interleavings of the lazy initialisation are sampled by the OS, not enumerated (DESIGN section 5.18)".into(),
